@@ -1,7 +1,7 @@
 (* Props/C20.v — property theorems for C20 (configuration is validated and persists with the
    database); each closed by `exact` of a lemma proved in ConfigProofs.v, with Print
    Assumptions beneath.  `storable c` is the guard: integers fit int64 (Go types) and the ratio survives
-   FormatFloat/ParseFloat (a decidable check; see the float assumption in lib/props.py). *)
+   FormatFloat/ParseFloat (a decidable check; see the float assumption in lib/props.d/C20.py). *)
 From KV Require Import Config ConfigProofs.
 From KV.gen Require Import ConfigFacts.
 From Coq Require Import ZArith.
